@@ -2,11 +2,27 @@
 From Coq Require Import NArith ZArith List String.
 From BU Require Import Base.Exn Base.Val Base.Bytes Gen.Consts Extract.ApiCommon.
 From BU Require Import Model.Codecs.
+From BU Require Model.IntBytes.
 Import ListNotations.
 Open Scope string_scope.
 
 Definition api (ask : string -> list val -> val) : list api_entry := [
   ("xmr_encode", fun a => match a with [VB b] => rb (xmr_encode b) | _ => bad_call end);
   ("xmr_decode", fun a => match a with [VB s] => rb (xmr_decode s) | _ => bad_call end);
-  ("xmr_decode_current", fun a => match a with [VB s] => rb (xmr_decode_current s) | _ => bad_call end)
+  ("xmr_decode_current", fun a => match a with [VB s] => rb (xmr_decode_current s) | _ => bad_call end);
+  (* IntegerUtils / BytesUtils; booleans are VN 0/1, "None" width is 0 *)
+  ("int_to_bytes", fun a => match a with [VZ v; VN w; VN big] =>
+      rb (IntBytes.to_bytes v w (negb (N.eqb big 0))) | _ => bad_call end);
+  ("bytes_to_int", fun a => match a with [VB b; VN big] =>
+      Ok (VN (IntBytes.to_integer b (negb (N.eqb big 0)))) | _ => bad_call end);
+  ("bytes_number", fun a => match a with [VZ v] => Ok (VN (IntBytes.bytes_number v)) | _ => bad_call end);
+  ("int_to_binstr", fun a => match a with [VN n; VN pad] =>
+      Ok (VB (IntBytes.int_to_binstr n (N.to_nat pad))) | _ => bad_call end);
+  ("int_from_binstr", fun a => match a with [VB s] => rmap VZ (IntBytes.int_from_binstr s) | _ => bad_call end);
+  ("bytes_to_binstr", fun a => match a with [VB b; VN pad] =>
+      Ok (VB (IntBytes.bytes_to_binstr b (N.to_nat pad))) | _ => bad_call end);
+  ("bytes_from_binstr", fun a => match a with [VB s; VN pad] =>
+      rb (IntBytes.bytes_from_binstr s (N.to_nat pad)) | _ => bad_call end);
+  ("hex_encode", fun a => match a with [VB b] => Ok (VB (IntBytes.to_hex_string b)) | _ => bad_call end);
+  ("hex_decode", fun a => match a with [VB s] => rb (IntBytes.from_hex_string s) | _ => bad_call end)
 ].
